@@ -172,6 +172,29 @@ def fp_json(s):
 
 
 # --------------------------------------------------------------------------------------------- the history
+def fold_sums_in_model_domain(d, nb):
+    """The model adds colliding values in the KIND's dtype (bool / uint16 with wrap at 2^16 / float64).  from_array without an
+    fp_type keeps the caller's integer dtype (uint8, int32, int64 ...), and scipy then adds collisions in THAT dtype: a sum that
+    wraps in one of the two and not in the other is outside the model's documented domain (header of Model/Db.v) - such folds
+    are replaced by reads.  (Counts stored in another integer width are an observation, not a C05 matter: what is stored and
+    read back is the same either way.)"""
+    try:
+        arr = d.array
+        if arr is None or nb is None or int(nb) <= 0:
+            return True
+        canon = {'KBit': 'bool', 'KCount': 'uint16', 'KFloat': 'float64'}[dbgen.kind_of_type(d.fp_type)]
+        if str(arr.dtype) == canon or arr.dtype.kind not in 'iu':
+            return True
+        lim = min(2 ** 16, int(np.iinfo(arr.dtype).max) + 1)
+        coo = arr.tocoo()
+        sums = {}
+        for r, c, v in zip(coo.row.tolist(), coo.col.tolist(), coo.data.tolist()):
+            sums[(r, c % int(nb))] = sums.get((r, c % int(nb)), 0) + int(v)
+        return all(0 <= v < lim for v in sums.values())
+    except Exception:  # noqa
+        return True
+
+
 class History5(dbgen.History):
     def __init__(self, rng, schema=None, bits=None, level='rand', workdir=None):
         bits = bits or rng.choice(BITS5)
@@ -222,6 +245,8 @@ class History5(dbgen.History):
     def op_fold(self, h, nb, kind=None):
         if kind == 'KCount' and has_negative(self.pool[h]):
             kind = 'KFloat'
+        if not fold_sums_in_model_domain(self.pool[h], nb):
+            return self.op_reads(h, self.rng.randrange(10 ** 9))
         return dbgen.History.op_fold(self, h, nb, kind)
 
     def op_density(self, h, idx):
@@ -510,6 +535,8 @@ class History5(dbgen.History):
         d = self.pool[h]
         if kind == 'KCount' and has_negative(d):
             kind = 'KFloat'
+        if not fold_sums_in_model_domain(d, nb):
+            return self.op_reads(h, self.rng.randrange(10 ** 9))
         T = fpgen.classes()[kind] if kind else None
         lit = '(OpFold %s %s %s)' % (natlit(h), zlit(nb), 'None' if kind is None else '(Some %s)' % kind)
 
